@@ -123,6 +123,9 @@ for nb in (0, 1, 2):
 for errh in ('500str', '404resp', '500raise', 'allraise'):
     CONFIGS.append({'before': 1, 'fail': None, 'after': 1, 'errh': errh})
     CONFIGS.append({'before': 2, 'fail': (1, 'exc'), 'after': 2, 'errh': errh})
+for rw in ('path', 'method', 'lazy-route'):
+    CONFIGS.append({'before': 1, 'fail': None, 'after': 1, 'errh': None, 'rewrite': rw})
+    CONFIGS.append({'before': 2, 'fail': None, 'after': 0, 'errh': None, 'rewrite': rw})
 for other in ('created-after', 'created-before'):
     CONFIGS.append({'before': 1, 'fail': None, 'after': 1, 'errh': None, 'other_app': other})
     CONFIGS.append({'before': 0, 'fail': None, 'after': 0, 'errh': None, 'other_app': other})
@@ -412,6 +415,13 @@ def serve(om, prog, method, cfg, outcome='found', file_wrapper=False):
     for i in range(cfg['before']):
         def bh(_i=i):
             log.append(f'b{_i}')
+            if _i == 0 and cfg.get('rewrite') == 'path' and outcome == 'found':
+                app.request.environ['PATH_INFO'] = '/h'                 # hooks run BEFORE routing: the new path is routed
+            if _i == 0 and cfg.get('rewrite') == 'method' and outcome == 'found':
+                app.request.environ['REQUEST_METHOD'] = 'POST' if app.request.environ['REQUEST_METHOD'] == 'PATCH' else app.request.environ['REQUEST_METHOD']
+            if _i == 0 and cfg.get('rewrite') == 'lazy-route' and outcome == 'found' and not rec.get('lazy'):
+                rec['lazy'] = True
+                app.route('/lazy', ['GET', 'POST'], handler)
             if cfg.get('selfremove') == f'before{_i}':
                 app.remove_hook('before_request', hooks[f'before{_i}'])     # a one-shot hook
             if cfg['fail'] and cfg['fail'][0] == _i:
@@ -458,6 +468,12 @@ def serve(om, prog, method, cfg, outcome='found', file_wrapper=False):
     reg_method = 'PUT' if outcome == '405' else [m for m in ('GET', 'POST')]
     app.route('/h', reg_method, handler)
     path = '/missing' if outcome == '404' else '/h'
+    if outcome == 'found' and cfg.get('rewrite') == 'path':
+        path = '/alias/for/h'
+    if outcome == 'found' and cfg.get('rewrite') == 'lazy-route':
+        path = '/lazy'
+    if outcome == 'found' and cfg.get('rewrite') == 'method' and method == 'POST':
+        method = 'PATCH'
     env = wsgi.environ(method, path)
     if file_wrapper:
         env['wsgi.file_wrapper'] = FileWrapper
